@@ -1,69 +1,2 @@
-/-
-  C02 / C03 at the level of apply_patch (statements; proofs in progress)
--/
-import PatchModel.Spec.Script
-namespace PatchModel.C02
-open PatchModel
-
-/-- index of the original line an output item was copied from -/
-def fileIdx : Out → Option Nat
-  | .fromFile i _ => some i
-  | _ => none
-
-/-- original line `i` lies under a '-' line of one of the placements -/
-def deletedB (pls : List (Hunk × Nat)) (i : Nat) : Bool :=
-  pls.any fun (h, p) => decide (p ≤ i) &&
-    (match (h.lines.filter (·.op != PLUS))[i - p]? with
-     | some pl => pl.op == MINUS
-     | none => false)
-
-/-- every item tagged "original line i" really carries the bytes and terminator of line i -/
-theorem spliceAt_fromFile (file : List Line) (c : Nat) (pls : List (Hunk × Nat)) :
-    ∀ o ∈ spliceAt file c pls, ∀ i l, o = Out.fromFile i l → file[i]? = some l := by
-  sorry
-
-/-- original lines appear in order, each at most once -/
-theorem spliceAt_sorted (file : List Line) (c : Nat) (pls : List (Hunk × Nat))
-    (h : increasingB file c pls = true) :
-    ((spliceAt file c pls).filterMap fileIdx).Pairwise (· < ·) := by
-  sorry
-
-/-- an original line at or after the cursor is in the output iff no applied hunk deletes it -/
-theorem spliceAt_complete (file : List Line) (c : Nat) (pls : List (Hunk × Nat))
-    (h : increasingB file c pls = true)
-    (hops : ∀ hp ∈ pls, ∀ pl ∈ hp.1.lines, pl.op = SP ∨ pl.op = PLUS ∨ pl.op = MINUS) :
-    ∀ i, c ≤ i → i < file.length →
-      (i ∈ (spliceAt file c pls).filterMap fileIdx ↔ deletedB pls i = false) := by
-  sorry
-
-/-- **C02 at the level of apply_patch**: for every file, every sequence of well-formed hunks (any line numbers, any
-    order, overlapping), every -F, with and without -l, -R, -N, -t, -f and every tty answer stream: if
-    `apply_patch` returns, its output is the splice of the file with a list of placements that are in increasing
-    order, non-overlapping, inside the file, and each admissible. -/
-theorem C02_apply (file : List Line) (p0 : Patch) (o : ApplyOpts) (tty : Option (List Bool)) (r : ApplyResult)
-    (hwf : ∀ h ∈ p0.hunks, h.WF) (hD : o.define = [])
-    (hr : applyPatch file p0 o tty = .ok r) :
-    ∃ pls : List (Hunk × Nat),
-      r.out = spliceAt file 0 pls ∧ increasingB file 0 pls = true ∧
-      pls.length = r.applied.length ∧
-      (∀ hp ∈ pls, hp.1 ∈ r.patch.hunks ∧ hp.1.WF) ∧
-      (∀ hp ∈ pls, hp.1.old.count ≠ 0 →
-        ∃ f : Nat, admissibleB file hp.1 o.ignoreWhitespace o.maxFuzz hp.2 f = true) := by
-  sorry
-
-end PatchModel.C02
-
-namespace PatchModel.C03
-open PatchModel
-
-/-- lifted to the hunk loop: outside the "skip remaining hunks" state, a well-formed hunk that has an admissible
-    placement in the not yet consumed part of the file is applied (appended to `applied`), never rejected -/
-theorem C03_step (file : List Line) (o : ApplyOpts) (p : Patch) (s : AState) (num : Nat) (h : Hunk) (q f : Nat)
-    (hwf : h.WF) (hc : h.old.count ≠ 0) (hskip : s.skip = false) (hD : o.define = [])
-    (hcur : s.cursor ≤ q) (hadm : admissibleB file h o.ignoreWhitespace o.maxFuzz q f = true) :
-    ∃ s' loc, locateHunk file h o.ignoreWhitespace s.offErr o.maxFuzz s.cursor = some loc ∧
-      finishHunk file o p s num h (some loc) = .ok s' ∧
-      s'.applied = s.applied ++ [(num, loc)] ∧ s'.rejected = s.rejected ∧ loc.fuzz ≤ (f : Int) := by
-  sorry
-
-end PatchModel.C03
+import PatchModel.Props.C02Apply
+import PatchModel.Props.C03Step
